@@ -11,10 +11,13 @@ Open Scope N_scope.
 
 (** compact constructors for the cases files *)
 Definition I (el r leaf : N) (pok : bool) : ain :=
-  AIn el (match r with 0 => RSpend | 1 => RRevise | _ => RRef end) leaf pok.
+  AIn el (match r with 0 => RSpend | 1 => RRevise | _ => RRef end) leaf pok 0.
+(** a revision to revision number [rv] *)
+Definition Iv (el leaf : N) (pok : bool) (rv : N) : ain := AIn el RRevise leaf pok rv.
 Definition T (id : N) (v2 : bool) (ins : list ain) (outs : list N) (fee w lo hi : N) (feeless : bool) : atx :=
   ATx id v2 ins outs fee w lo hi feeless.
-Definition Lg (els : list (N * N)) (num h : N) : ledger := LG (list_to_map els) num h.
+Definition Lg (els : list (N * N)) (num h : N) (revs : list (N * N)) : ledger :=
+  LG (list_to_map els) num h (list_to_map revs).
 Definition B (par : N) (hdr st body : bool) (ids : list N) (cr : list (N * N)) (num : N) : blk :=
   Blk par hdr st body ids cr num.
 Definition S_ (revert : bool) (cr : list (N * N)) (num : N) : bstep := BS revert cr num.
